@@ -20,7 +20,10 @@ Mutators == {"mut_remove_element", "mut_remove_rate"}
 
 Verdict(rec) ==
     LET n == Len(rec.calls) IN
-    IF rec.out # "ok" THEN <<"skip", rec.out>>
+    \* a history that does not come back (killed after 5 minutes; histories take milliseconds): the runs on the shared
+    \* objects do not give the results of runs on fresh copies
+    IF rec.out = "hang" THEN <<"viol", "C15:history-does-not-return">>
+    ELSE IF rec.out # "ok" THEN <<"skip", rec.out>>
     ELSE IF Len(rec.snaps) # n + 1 \/ Len(rec.shared) # n \/ Len(rec.fresh) # n THEN <<"skip", "malformed-record">>
     \* every call but a mutator leaves the inputs as they were before it (snaps[k] is taken before call k)
     ELSE IF \E k \in 1..n : rec.calls[k] \notin Mutators /\ rec.snaps[k + 1].abs # rec.snaps[k].abs
